@@ -1,6 +1,7 @@
 import AtsimModel.Model.Formula
 import AtsimModel.Model.PotLang
 import AtsimModel.Props.C09Roundtrip
+import AtsimModel.Gen.Logic
 import Mathlib.Data.Real.Basic
 import Mathlib.Analysis.SpecialFunctions.Pow.Real
 import Mathlib.Tactic.Ring
@@ -320,6 +321,136 @@ theorem C09_pow (a b : ℝ → ℝ) (r : ℝ) : reduceF powF a [b] r = a r ^ b r
   rfl
 theorem C09_pow_left_nested (a b c : ℝ → ℝ) (r : ℝ) : reduceF powF a [b, c] r = (a r ^ b r) ^ c r := by
   rfl
+
+/-! ## Code tie: the reducing modifiers (`_modifiers.py`), regenerated from the source on every run -/
+section CodeTie
+open Atsim.Gen.Logic
+
+theorem modifier_reduce_loop1_eq (mk : Pfi → FnObj2) (f : FnObj2 → FnObj2 → FnObj2) (name : String) (acc : List FnObj2) (all : List Pfi) (xs : List (Nat × Pfi)) :
+    modifier_reduce_loop1 mk f name acc () all xs =
+      (match acc ++ xs.map (fun p => mk p.2) with
+       | [] => .error ModErr.noArguments
+       | x :: r => .ok (r.foldl f x)) := by
+  induction xs generalizing acc with
+  | nil => simp only [modifier_reduce_loop1, List.map_nil, List.append_nil]; cases acc <;> rfl
+  | cons x xs ih => simp only [modifier_reduce_loop1, ih, List.map_cons, List.append_assoc, List.singleton_append]
+
+theorem range_zip_map_snd {α β : Type} (g : α → β) (l : List α) : ((List.range l.length).zip l).map (fun p => g p.2) = l.map g := by
+  have h : ((List.range l.length).zip l).map Prod.snd = l := by
+    rw [List.map_snd_zip]; simp
+  calc ((List.range l.length).zip l).map (fun p => g p.2) = (((List.range l.length).zip l).map Prod.snd).map g := by simp [List.map_map, Function.comp_def]
+    _ = l.map g := by rw [h]
+
+/-- **code tie**: `_modifier_from_func_reduce` builds a callable for EVERY argument, in the order written, and folds `func` over all of them from the left
+(`functools.reduce`); no argument is skipped, repeated or reordered.  With no argument at all Python's reduce raises. -/
+theorem C09_code_modifier_reduce (mk : Pfi → FnObj2) (f : FnObj2 → FnObj2 → FnObj2) (name : String) (forms : List Pfi) :
+    modifier_reduce mk name f forms () =
+      (match forms.map mk with
+       | [] => .error ModErr.noArguments
+       | x :: r => .ok (r.foldl f x)) := by
+  unfold modifier_reduce
+  rw [modifier_reduce_loop1_eq, List.nil_append, range_zip_map_snd]
+
+/-- **code tie**: `sum`, `product` and `pow` of `_modifiers.py` are that fold with `plus`, `product` and `pow` of atsim.potentials -/
+theorem C09_code_sum_product_pow (mk : Pfi → FnObj2) (op : FnObj2 → FnObj2 → FnObj2) (p : Pfi) (ps : List Pfi) :
+    modifier_sum mk op (p :: ps) () = .ok ((ps.map mk).foldl op (mk p)) ∧
+    modifier_product mk op (p :: ps) () = .ok ((ps.map mk).foldl op (mk p)) ∧
+    modifier_pow mk op (p :: ps) () = .ok ((ps.map mk).foldl op (mk p)) := by
+  simp [modifier_sum, modifier_product, modifier_pow, C09_code_modifier_reduce, andThen]
+
+/-- the fold of the code, read through any interpretation `sem` of the callables under which the combinator is `op'`, is `reduceF op'` of the interpreted arguments -/
+theorem foldl_sem (sem : FnObj2 → ℝ → ℝ) (op : FnObj2 → FnObj2 → FnObj2) (op' : (ℝ → ℝ) → (ℝ → ℝ) → (ℝ → ℝ))
+    (h : ∀ a b, sem (op a b) = op' (sem a) (sem b)) (x : FnObj2) (xs : List FnObj2) :
+    sem (xs.foldl op x) = reduceF op' (sem x) (xs.map sem) := by
+  unfold reduceF
+  induction xs generalizing x with
+  | nil => rfl
+  | cons y ys ih => simp only [List.foldl_cons, List.map_cons, ih, h]
+
+/-- **code tie, values**: what the generated `sum` modifier returns is, at every r, the sum of ALL its arguments' values (and likewise the product) -/
+theorem C09_code_sum_value (sem : FnObj2 → ℝ → ℝ) (mk : Pfi → FnObj2) (op : FnObj2 → FnObj2 → FnObj2)
+    (h : ∀ a b, sem (op a b) = plusF (sem a) (sem b)) (p : Pfi) (ps : List Pfi) (v : FnObj2)
+    (hv : modifier_sum mk op (p :: ps) () = .ok v) (r : ℝ) :
+    sem v r = sem (mk p) r + (ps.map (fun q => sem (mk q) r)).sum := by
+  rw [(C09_code_sum_product_pow mk op p ps).1] at hv
+  cases hv
+  rw [foldl_sem sem op plusF h, C09_sum, List.map_map, List.map_map]
+  rfl
+
+theorem C09_code_product_value (sem : FnObj2 → ℝ → ℝ) (mk : Pfi → FnObj2) (op : FnObj2 → FnObj2 → FnObj2)
+    (h : ∀ a b, sem (op a b) = productF (sem a) (sem b)) (p : Pfi) (ps : List Pfi) (v : FnObj2)
+    (hv : modifier_product mk op (p :: ps) () = .ok v) (r : ℝ) :
+    sem v r = sem (mk p) r * (ps.map (fun q => sem (mk q) r)).prod := by
+  rw [(C09_code_sum_product_pow mk op p ps).2.1] at hv
+  cases hv
+  rw [foldl_sem sem op productF h, C09_product, List.map_map, List.map_map]
+  rfl
+
+theorem register_loop_eq (funcOf : FormObj → FuncObj) (ps all : List (FormObj × FormObj)) (regs : List (FuncObj × FuncObj)) (forms : List (String × FormObj)) :
+    register_with_each_other_loop1 funcOf all regs forms ps = regs ++ ps.map (fun p => (funcOf p.1, funcOf p.2)) := by
+  induction ps generalizing regs with
+  | nil => simp [register_with_each_other_loop1]
+  | cons p ps ih => simp [register_with_each_other_loop1, ih]
+
+theorem mem_orderedPairs {α : Type} (xs : List α) (a b : α) :
+    (a, b) ∈ orderedPairs xs ↔ ∃ i j : Nat, i ≠ j ∧ xs[i]? = some a ∧ xs[j]? = some b := by
+  unfold orderedPairs
+  simp only [List.mem_flatMap, List.mem_range, List.mem_filterMap]
+  constructor
+  · rintro ⟨i, hi, j, hj, h⟩
+    by_cases hij : i = j
+    · simp [hij] at h
+    · refine ⟨i, j, hij, ?_⟩
+      simp only [hij, if_false] at h
+      have h1 : xs[i]? = some xs[i] := List.getElem?_eq_getElem hi
+      have h2 : xs[j]? = some xs[j] := List.getElem?_eq_getElem hj
+      rw [h1, h2] at h
+      simp only [Option.some.injEq, Prod.mk.injEq] at h
+      rw [h1, h2, h.1, h.2]
+      exact ⟨rfl, rfl⟩
+  · rintro ⟨i, j, hij, h1, h2⟩
+    have hi : i < xs.length := by
+      rcases Nat.lt_or_ge i xs.length with h | h
+      · exact h
+      · rw [List.getElem?_eq_none h] at h1; cases h1
+    have hj : j < xs.length := by
+      rcases Nat.lt_or_ge j xs.length with h | h
+      · exact h
+      · rw [List.getElem?_eq_none h] at h2; cases h2
+    refine ⟨i, hi, j, hj, ?_⟩
+    simp [hij, h1, h2]
+
+/-- **code tie**: `Potential_Form_Registry._register_with_each_other` calls `a.register_function(b)` exactly for the ordered pairs of `itertools.permutations`, in that order -/
+theorem C09_code_register_with_each_other (funcOf : FormObj → FuncObj) (forms : List (String × FormObj)) (regs : List (FuncObj × FuncObj)) :
+    register_with_each_other funcOf forms regs = regs ++ (orderedPairs (forms.map (·.2))).map (fun p => (funcOf p.1, funcOf p.2)) := by
+  unfold register_with_each_other
+  exact register_loop_eq _ _ _ _ _
+
+/-- every custom form is registered with every OTHER custom form, in both directions, wherever the two stand in the file: a form can call one defined after it as well
+as one defined before it -/
+theorem C09_code_every_form_sees_every_other (funcOf : FormObj → FuncObj) (forms : List (String × FormObj)) (i j : Nat) (ei ej : String × FormObj)
+    (hi : forms[i]? = some ei) (hj : forms[j]? = some ej) (hij : i ≠ j) :
+    (funcOf ei.2, funcOf ej.2) ∈ register_with_each_other funcOf forms [] ∧ (funcOf ej.2, funcOf ei.2) ∈ register_with_each_other funcOf forms [] := by
+  rw [C09_code_register_with_each_other]
+  simp only [List.nil_append, List.mem_map]
+  constructor
+  · exact ⟨(ei.2, ej.2), (mem_orderedPairs _ _ _).2 ⟨i, j, hij, by simp [hi], by simp [hj]⟩, rfl⟩
+  · exact ⟨(ej.2, ei.2), (mem_orderedPairs _ _ _).2 ⟨j, i, fun h => hij h.symm, by simp [hj], by simp [hi]⟩, rfl⟩
+
+/-- and no form is registered with itself by position: a call `a.register_function(b)` always comes from two different entries -/
+theorem C09_code_register_only_others (funcOf : FormObj → FuncObj) (forms : List (String × FormObj)) (x : FuncObj × FuncObj)
+    (h : x ∈ register_with_each_other funcOf forms []) :
+    ∃ (i j : Nat) (ei ej : String × FormObj), i ≠ j ∧ forms[i]? = some ei ∧ forms[j]? = some ej ∧ x = (funcOf ei.2, funcOf ej.2) := by
+  rw [C09_code_register_with_each_other] at h
+  simp only [List.nil_append, List.mem_map] at h
+  obtain ⟨⟨a, b⟩, hm, rfl⟩ := h
+  obtain ⟨i, j, hij, h1, h2⟩ := (mem_orderedPairs _ _ _).1 hm
+  simp only [List.getElem?_map, Option.map_eq_some_iff] at h1 h2
+  obtain ⟨ei, hei, rfl⟩ := h1
+  obtain ⟨ej, hej, rfl⟩ := h2
+  exact ⟨i, j, ei, ej, hij, hei, hej, rfl⟩
+
+end CodeTie
 
 /-- the order of the arguments of sum() and product() does not matter -/
 theorem C09_sum_perm (f0 : ℝ → ℝ) (fs gs : List (ℝ → ℝ)) (h : fs.Perm gs) (r : ℝ) :
